@@ -53,6 +53,11 @@ class ScriptedPythia:
       if how == 'surrogate-message':
         # an error text that cannot be encoded as UTF-8 (e.g. a surrogate-escaped file name)
         raise AlgorithmFailure('Pythia has encountered an error: bad \ud800 name')
+      if how and how.startswith('long-message:'):
+        # a LONG error text with multi-byte characters at every byte offset class (anything that cuts, pads or
+        # re-encodes the text byte-wise trips over one of the paddings)
+        pad = int(how.split(':')[1])
+        raise AlgorithmFailure('x' * pad + 'gr\u00f6\u00dfe \u4e2d\u6587 \U0001f600 ' * 900)
       if how == 'malformed-decision':
         # the algorithm answers, but its answer cannot be converted: a suggested parameter without a value
         d = pc.SuggestConverter.to_decision_proto(pythia.SuggestDecision(suggestions=[vz.TrialSuggestion({'x': 1.0})], metadata=vz.MetadataDelta()))
@@ -365,6 +370,15 @@ def make_runner(backend, es_recycle=True):
     from vcheck import deploy
     kind, be = backend.split(':', 1)
     return deploy.Deployment('local', be, es_recycle=es_recycle, hosted=(kind == 'hosted')).runner()
+  if backend.startswith('realalg:'):
+    # the service's OWN Pythia (default policy factory, real algorithms): only for requests whose outcome does not
+    # depend on an algorithm's random choices (early stopping of a study with a single ACTIVE trial)
+    import datetime
+    from vizier._src.service import vizier_service
+    be = backend.split(':', 1)[1]
+    period = datetime.timedelta(seconds=0) if es_recycle else datetime.timedelta(days=3650)
+    sv = vizier_service.VizierServicer(database_url=None if be == 'ram' else 'sqlite:///:memory:', early_stop_recycle_period=period)
+    return RealRunner(be, es_recycle=es_recycle, servicer=sv)
   return RealRunner(backend, es_recycle=es_recycle)
 
 
